@@ -536,7 +536,9 @@ pub fn verify(rv: &RefVerifier, p: &RefProof, pi: &[F], version: Version) -> Ver
 /// openings cancel in the folded pairing check,
 ///     W' = W + s [x - z w]_1        W_w' = W_w - (s/u) [x - z]_1
 /// (`(x-z)(W'-W) + u (x - z w)(W_w'-W_w) = 0`). `early` = 0: `u` as drawn
-/// before either commitment is absorbed; 1: after absorbing only `W'`.
+/// before either commitment is absorbed; 1: after absorbing only `W'`; 2: after
+/// absorbing `W'` under both labels; 3: `W'` under the second label only (in
+/// every variant `u` does not depend on `W_w'`).
 /// `x_g` = [x]_1 from the public parameters. A correct verifier rejects the
 /// result (its `u` differs), and so does the reference verifier.
 pub fn late_bound_opening_pair(
@@ -559,8 +561,18 @@ pub fn late_bound_opening_pair(
     let x_z = G1Projective::from(*x_g) - smul(&rv.g, &z);
     let mut out = p.clone();
     out.comm[P_W] = G1Affine::from(G1Projective::from(p.comm[P_W]) + x_zw * *s);
-    if early == 1 {
-        app_g1(&mut t, b"w_z_chall_comm", &out.comm[P_W]);
+    match early {
+        // u drawn after absorbing only the first opening commitment
+        1 => app_g1(&mut t, b"w_z_chall_comm", &out.comm[P_W]),
+        // ... after absorbing the FIRST commitment under both labels (the
+        // second append passes the wrong commitment)
+        2 => {
+            app_g1(&mut t, b"w_z_chall_comm", &out.comm[P_W]);
+            app_g1(&mut t, b"w_z_chall_w_comm", &out.comm[P_W]);
+        }
+        // ... after absorbing the first commitment under the second label only
+        3 => app_g1(&mut t, b"w_z_chall_w_comm", &out.comm[P_W]),
+        _ => {}
     }
     let u = chal(&mut t, b"u_challenge");
     let u_inv = Option::<F>::from(u.invert())?;
